@@ -160,27 +160,38 @@ theorem tc_sound : ∀ (n : Nat) (e : Expr F) (ex : Option Ty) (t : Ty),
     | binary op l r =>
       simp only at h
       split at h
-      · rename_i t0 _
-        split at h
-        · rename_i hc
-          simp only [Bool.and_eq_true] at hc
-          have hl := (ih l (some t0) t0 (beq_opt hc.1)).1
-          have hr := (ih r (some t0) t0 (beq_opt hc.2)).1
+      · rename_i s hrep
+        split at hrep
+        · rename_i hop; subst hop
           split at h
-          · rename_i res hb
+          · rename_i hc
             obtain ⟨rfl, hx⟩ := accept_some h
-            refine ⟨?_, hx⟩
-            rcases binTy_sound hb with ⟨he, rfl⟩ | ⟨_, h1 | h1 | h1 | h1 | h1 | h1⟩
-            · exact .eq op l r t0 he hl hr
-            · obtain ⟨rfl, ha, rfl⟩ := h1; exact .arith op l r ha hl hr
-            · obtain ⟨rfl, ha, rfl⟩ := h1; exact .cmpNum op l r ha hl hr
-            · obtain ⟨rfl, rfl, rfl⟩ := h1; exact .concat l r hl hr
-            · obtain ⟨rfl, ha, rfl⟩ := h1; exact .cmpStr op l r ha hl hr
-            · obtain ⟨rfl, ha, rfl⟩ := h1; exact .logic op l r ha hl hr
-            · obtain ⟨s, rfl, rfl, rfl⟩ := h1; exact .arrCat l r s hl hr
+            exact ⟨.arrRep l r s (ih l none _ hrep).1 (ih r _ _ (beq_opt hc)).1, hx⟩
+          · cases h
+        · cases hrep
+      · clear ‹∀ (s : Ty), _›
+        split at h
+        · rename_i t0 _
+          split at h
+          · rename_i hc
+            simp only [Bool.and_eq_true] at hc
+            have hl := (ih l (some t0) t0 (beq_opt hc.1)).1
+            have hr := (ih r (some t0) t0 (beq_opt hc.2)).1
+            split at h
+            · rename_i res hb
+              obtain ⟨rfl, hx⟩ := accept_some h
+              refine ⟨?_, hx⟩
+              rcases binTy_sound hb with ⟨he, rfl⟩ | ⟨_, h1 | h1 | h1 | h1 | h1 | h1⟩
+              · exact .eq op l r t0 he hl hr
+              · obtain ⟨rfl, ha, rfl⟩ := h1; exact .arith op l r ha hl hr
+              · obtain ⟨rfl, ha, rfl⟩ := h1; exact .cmpNum op l r ha hl hr
+              · obtain ⟨rfl, rfl, rfl⟩ := h1; exact .concat l r hl hr
+              · obtain ⟨rfl, ha, rfl⟩ := h1; exact .cmpStr op l r ha hl hr
+              · obtain ⟨rfl, ha, rfl⟩ := h1; exact .logic op l r ha hl hr
+              · obtain ⟨s, rfl, rfl, rfl⟩ := h1; exact .arrCat l r s hl hr
+            · cases h
           · cases h
         · cases h
-      · cases h
     | index l i =>
       simp only at h
       split at h
